@@ -366,6 +366,18 @@ def life_scenarios(tier):
         if d.kind not in ("invariant", "temporal"):
             raise vlib.Inconclusive("weakened client life cycle %s was not refuted (%s)" % (cfg, d.kind))
         design[cfg] = "refuted: " + (d.violated or d.kind)
+    if tier == "thorough":
+        # leading stream + rendition (ClientLife2.tla): sequential hand-offs of the primary downloader, the leading time converter
+        for cfg in ("MC_life2_fmp4.cfg", "MC_life2_ts.cfg"):
+            d = vlib.tlc("ClientLife2", cfg, timeout=3600, quiet=True)
+            if not d.ok():
+                raise vlib.Inconclusive("design model %s did not pass: %s %s\n%s" % (cfg, d.kind, d.violated, d.out[-2000:]))
+            design[cfg] = [d.distinct, d.generated]
+        for cfg in ("MC_life2_weak_startNoSelect.cfg", "MC_life2_weak_leadNoCtx.cfg", "MC_life2_weak_errorNoJoin.cfg"):
+            d = vlib.tlc("ClientLife2", cfg, timeout=1800, quiet=True)
+            if d.kind not in ("invariant", "temporal"):
+                raise vlib.Inconclusive("weakened two-stream life cycle %s was not refuted (%s)" % (cfg, d.kind))
+            design[cfg] = "refuted: " + (d.violated or d.kind)
     scs = []
     combos = []
     for fmp4 in (True, False):
